@@ -131,7 +131,9 @@ def prepare(sim, conf):
         sim.open_ws()
         rej = [e for e in sim.events if e['ev'] == 'connect'][-1]['sid']
         pop['rejected'] = type('H', (), {'sid': rej})()
-    pop['unknown'] = type('H', (), {'sid': 'nosuchsidAAAAAAAAAAA'})()
+    # (an id the server never issued - and a long one: whatever the refusal
+    # quotes of it must fit where the gateway puts it)
+    pop['unknown'] = type('H', (), {'sid': 'nosuchsid' + 'A' * 140})()
     # the id of a live session with a control character in it (it names no
     # session)
     base = pop.get('live') or pop.get('upgraded')
